@@ -66,6 +66,24 @@ func (e *Env) build386() (string, string) {
 	return bin, "ran"
 }
 
+// simrunGo126 is the library built by the newer toolchain of the sandbox:
+// files and branches guarded by a Go-version build constraint (//go:build
+// go1.25, hash.Cloner fast paths, new standard-library APIs) only exist
+// there.  No statement names a toolchain.
+var simrunGo126 = Variant{Name: "go1.26", Pkg: "./cmd/simrun", Tags: "verif", Go: "go1.26.8"}
+
+func (e *Env) buildGo126() (string, string) {
+	if _, err := exec.LookPath(simrunGo126.Go); err != nil {
+		return "", "skipped: " + simrunGo126.Go + " is not on PATH"
+	}
+	bin, err := e.Build(simrunGo126)
+	if err != nil {
+		Logf("the %s build of simrun failed: skipped\n%v", simrunGo126.Go, err)
+		return "", "skipped: does not build with " + simrunGo126.Go
+	}
+	return bin, "ran"
+}
+
 // simStall is the stall world: a test binary built with the newer toolchain
 // of the sandbox, because it runs the signers inside testing/synctest bubbles
 // (fake clock, quiescence detection).
@@ -187,6 +205,7 @@ func CheckSign(e *Env, prop string) (int, error) {
 		stallRuns = 64000
 	}
 	// a few histories on a 32-bit platform (several times slower there)
+	binNew, stateNew := e.buildGo126()
 	bin386, state386 := e.build386()
 	n386 := 16
 	if e.Tier == "thorough" {
@@ -217,6 +236,14 @@ func CheckSign(e *Env, prop string) (int, error) {
 			if bin386 != "" {
 				jobs = append(jobs, SplitRuns(bin386, simrun386.Name, "sign", prop, first386, n386, n386/8)...)
 			}
+			if binNew != "" {
+				// the enumerated layer once more, and some histories, as the
+				// newer toolchain builds the library
+				for s := 0; s < 16; s++ {
+					jobs = append(jobs, &Job{Bin: binNew, Variant: simrunGo126.Name, World: "signenum", Prop: prop, From: s, N: 1})
+				}
+				jobs = append(jobs, SplitRuns(binNew, simrunGo126.Name, "sign", prop, first386+1000000, 4*perJob, perJob)...)
+			}
 			return jobs
 		}
 		jobs = SplitRuns(bin, "asm", "sign", prop, round*perRound, perRound, perJob)
@@ -237,6 +264,9 @@ func CheckSign(e *Env, prop string) (int, error) {
 		}
 		if r.Variant == simrun386.Name {
 			return bin386, simrun386.Name
+		}
+		if r.Variant == simrunGo126.Name {
+			return binNew, simrunGo126.Name
 		}
 		return bin, "asm"
 	}, budgetSeconds(e.Tier, 60, 300))
@@ -261,6 +291,7 @@ func CheckSign(e *Env, prop string) (int, error) {
 		"sampled_histories":                     a.ByWorld["sign"] + a.ByWorld["pool"] + a.ByWorld["stall"],
 		"stall_world":                           map[string]any{"state": stallState, "runs": a.ByWorld["stall"], "simulated_clock_ms": a.StallMS, "what": "one signing call per run inside a testing/synctest bubble (go1.26.8): the entropy reader delivers 0..31 bytes in short reads and then blocks for 1 s .. 1000 h of simulated time before failing; the signer is looked at after 1 ms / 5 s / 10 min of simulated time and must still be waiting, and must fail with its reader afterwards. Every timer the library arms reads the fake clock."},
 		"platform_386":                          map[string]any{"state": state386, "runs": a.Variants[simrun386.Name], "what": "sign-world histories executed by a GOARCH=386 build of the library and the harness (32-bit int/uint, portable code paths); same oracles"},
+		"toolchain_go1_26":                      map[string]any{"state": stateNew, "runs": a.Variants[simrunGo126.Name], "what": "the enumerated layer and some sign-world histories executed by a build of library and harness made with go1.26.8 (code behind Go-version build constraints exists only there); same oracles"},
 		"sampled_distinct_nontrivial_histories": sampledNontrivial,
 		"enumerated_distinct_nontrivial_cases":  a.EnumDistinctNontrivial,
 		"rule":                                  rule,
@@ -268,18 +299,19 @@ func CheckSign(e *Env, prop string) (int, error) {
 		"samples": e.samplesOrFetch(traced, 3, func() *Job {
 			return &Job{Bin: bin, Variant: "asm", World: "sign", Prop: prop, From: 0, N: 4, Extra: []string{"-trace"}}
 		}),
-		"operations_executed":      a.Ops,
-		"enumerated_fault_cases":   a.EnumCases,
-		"enumerated_layer_total":   a.EnumTotal,
-		"exhaustive":               false,
-		"exhaustive_note":          "the single-fault layer (enumerated_fault_cases == enumerated_layer_total) is enumerated completely on every run; the multi-fault histories are sampled",
-		"fault_kinds_fired":        a.Faults,
-		"reach_probes":             a.Probes,
-		"distinct_history_digests": len(a.Digests),
-		"runs_by_world":            a.ByWorld,
-		"simulated_time":           fmt.Sprintf("%d logical steps (signing operations; this world has no clock)", a.Steps),
-		"runs_per_hour":            int(float64(a.Runs) / time.Since(e.Start).Hours()),
-		"real_vs_stub":             "real: all of /repo (secec, secec/bitcoin, curve, field, assembly), Go crypto, x/crypto, tuplehash. stub: the entropy device (io.Reader) and crypto/rand.Reader when rand == nil. model: sim/ref (math/big).",
+		"operations_executed":                             a.Ops,
+		"enumerated_fault_cases":                          a.EnumCases,
+		"enumerated_fault_cases_repeated_in_other_builds": a.EnumCasesOtherBuilds,
+		"enumerated_layer_total":                          a.EnumTotal,
+		"exhaustive":                                      false,
+		"exhaustive_note":                                 "the single-fault layer (enumerated_fault_cases == enumerated_layer_total) is enumerated completely on every run; the multi-fault histories are sampled",
+		"fault_kinds_fired":                               a.Faults,
+		"reach_probes":                                    a.Probes,
+		"distinct_history_digests":                        len(a.Digests),
+		"runs_by_world":                                   a.ByWorld,
+		"simulated_time":                                  fmt.Sprintf("%d logical steps (signing operations; this world has no clock)", a.Steps),
+		"runs_per_hour":                                   int(float64(a.Runs) / time.Since(e.Start).Hours()),
+		"real_vs_stub":                                    "real: all of /repo (secec, secec/bitcoin, curve, field, assembly), Go crypto, x/crypto, tuplehash. stub: the entropy device (io.Reader) and crypto/rand.Reader when rand == nil. model: sim/ref (math/big).",
 		"violations_of_other_properties_seen_and_ignored": a.OtherProps,
 	}
 	ev := &Evidence{PropertyID: prop, Tier: e.Tier, Seed: int64(e.Seed), Level: level, Coverage: cov, WallS: time.Since(e.Start).Seconds(), Violations: out.violations,
